@@ -80,6 +80,11 @@ fn gen_float(s: &mut dyn Src) -> f64 {
     t.parse::<f64>().unwrap()
 }
 
+/// Sizes: usually small (lists of 0-3, arity 0-4, 2-3 operands); one time in twelve large (lists up to 30
+/// elements, arity up to 12, conjunctions / disjunctions of up to 9 goals), so that nothing in the text front end
+/// is only ever seen with a handful of arguments.
+fn size(s: &mut dyn Src, small: u32, large: u32) -> u32 { if chance(s, 1, 12) { s.draw(large) } else { s.draw(small) } }
+
 fn c_term(s: &mut dyn Src, depth: u32) -> Term {
     let deep = depth < 2;
     match weighted(s, &[5, 3, 2, 4, 1, if deep { 3 } else { 0 }, if deep { 3 } else { 0 }]) {
@@ -89,13 +94,13 @@ fn c_term(s: &mut dyn Src, depth: u32) -> Term {
         3 => if chance(s, 1, 3) { Term::Var(gen_varname(s)) } else { Term::var(pick(s, &CVARS)) },
         4 => Term::Anon,
         5 => {
-            let n = s.draw(4) as usize;
+            let n = size(s, 4, 31) as usize;
             let es: Vec<Term> = (0..n).map(|_| c_term(s, depth + 1)).collect();
             let tail = if n > 0 { match s.draw(4) { 0 => Some(Box::new(Term::var(pick(s, &CVARS)))), 1 => Some(Box::new(Term::Anon)), _ => None } } else { None };
             Term::List(es, tail)
         }
         _ => {
-            let n = s.draw(5) as usize;
+            let n = size(s, 5, 13) as usize;
             Term::Cmp(pick(s, &FUNCTORS).to_string(), (0..n).map(|_| c_term(s, depth + 1)).collect())
         }
     }
@@ -107,23 +112,23 @@ fn c_func(s: &mut dyn Src) -> Term {
         let n = 1 + s.draw(3) as usize;
         Term::Func("join".into(), (0..n).map(|_| match s.draw(3) { 0 => Term::var(pick(s, &CVARS)), 1 => Term::atom(pick(s, &CATOMS)), _ => Term::List(vec![Term::atom("x"), Term::atom("y")], None) }).collect())
     } else {
-        let n = 2 + s.draw(2) as usize;
+        let n = 2 + size(s, 2, 7) as usize;
         Term::Func(pick(s, &["add", "subtract", "multiply", "divide"]).to_string(), (0..n).map(|_| simple(s)).collect())
     }
 }
 
 fn c_leaf(s: &mut dyn Src) -> Goal {
     match weighted(s, &[6, 4, 3, 4, 1, 1, 1]) {
-        0 => { let n = s.draw(4) as usize; Goal::Call(pick(s, &FUNCTORS).to_string(), (0..n).map(|_| c_term(s, 1)).collect()) }
+        0 => { let n = size(s, 4, 13) as usize; Goal::Call(pick(s, &FUNCTORS).to_string(), (0..n).map(|_| c_term(s, 1)).collect()) }
         1 => if chance(s, 1, 3) { Goal::Unify(Term::var(pick(s, &CVARS)), c_func(s)) } else { Goal::Unify(c_term(s, 1), c_term(s, 1)) },
         2 => { let op = pick(s, &CmpOp::ALL); let r = if chance(s, 1, 4) { c_func(s) } else { c_term(s, 2) }; Goal::Compare(op, c_term(s, 2), r) }
         3 => match s.draw(7) {
-            0 => Goal::BuiltIn("append".into(), (0..(2 + s.draw(3))).map(|_| c_term(s, 1)).collect()),
+            0 => Goal::BuiltIn("append".into(), (0..(2 + size(s, 3, 9))).map(|_| c_term(s, 1)).collect()),
             1 => Goal::BuiltIn("count".into(), vec![c_term(s, 1), Term::var(pick(s, &CVARS))]),
             2 => Goal::BuiltIn("include".into(), vec![c_term(s, 1), c_term(s, 1), Term::var(pick(s, &CVARS))]),
             3 => Goal::BuiltIn("exclude".into(), vec![c_term(s, 1), c_term(s, 1), Term::var(pick(s, &CVARS))]),
             4 => { let mut a = vec![c_term(s, 1), c_term(s, 2)]; if chance(s, 1, 2) { a.push(c_term(s, 2)); } Goal::BuiltIn("functor".into(), a) }
-            5 => Goal::BuiltIn("print".into(), (0..(1 + s.draw(3))).map(|_| c_term(s, 1)).collect()),
+            5 => Goal::BuiltIn("print".into(), (0..(1 + size(s, 3, 9))).map(|_| c_term(s, 1)).collect()),
             _ => Goal::BuiltIn("print_list".into(), vec![c_term(s, 1)]),
         },
         4 => Goal::Nl,
@@ -135,8 +140,8 @@ fn c_leaf(s: &mut dyn Src) -> Goal {
 fn c_goal(s: &mut dyn Src, depth: u32) -> Goal {
     match weighted(s, &[8, if depth < 3 { 3 } else { 0 }, if depth < 3 { 3 } else { 0 }, 1, 1]) {
         0 => c_leaf(s),
-        1 => { let n = 2 + s.draw(2); Goal::And((0..n).map(|_| c_goal(s, depth + 1)).collect()) }
-        2 => { let n = 2 + s.draw(2); Goal::Or((0..n).map(|_| c_goal(s, depth + 1)).collect()) }
+        1 => { let n = 2 + size(s, 2, 8); Goal::And((0..n).map(|_| c_goal(s, depth + 1)).collect()) }
+        2 => { let n = 2 + size(s, 2, 8); Goal::Or((0..n).map(|_| c_goal(s, depth + 1)).collect()) }
         3 => Goal::Not(Box::new(c_simple(s))),
         _ => Goal::Time(Box::new(c_simple(s))),
     }
@@ -149,8 +154,8 @@ fn c_simple(s: &mut dyn Src) -> Goal {
 }
 
 fn c_clause(s: &mut dyn Src) -> Clause {
-    let n = s.draw(4) as usize;
-    let name = pick(s, &FUNCTORS).to_string();
+    let n = size(s, 4, 13) as usize;
+    let name = if chance(s, 1, 12) { format!("{}_{}", pick(s, &FUNCTORS), "abcdefghij".repeat(1 + s.draw(4) as usize)) } else { pick(s, &FUNCTORS).to_string() };
     let args: Vec<Term> = (0..n).map(|_| c_term(s, 1)).collect();
     let body = if chance(s, 2, 5) { None } else { Some(c_goal(s, 1)) };
     Clause { name, args, body }
@@ -445,7 +450,7 @@ impl ParserProp {
 
     // -------------------------------------------------------------- C21
     fn file(&self, s: &mut dyn Src, rep: &mut Report) -> CaseResult {
-        let n = 1 + s.draw(5) as usize;
+        let n = 1 + size(s, 5, 40) as usize;
         let ia = chance(s, 1, 2);
         let st = Style { infix_compare: ia || chance(s, 1, 2), infix_arith: ia, bare_zero_arity: chance(s, 1, 3), ..CANON };
         let mut rules: Vec<String> = vec![];
@@ -579,7 +584,7 @@ pub const TEST_STRINGS: [&str; 40] = [
 
 impl Property for ParserProp {
     fn id(&self) -> &'static str { self.id }
-    fn max_len(&self) -> usize { 200 }
+    fn max_len(&self) -> usize { 320 }
     // cases per worker (quick, thorough); the string-level checks cost a few microseconds per case
     fn budget(&self) -> (u64, u64) {
         match self.aspect {
